@@ -700,4 +700,16 @@ Queries(ep, qsids) ==
   [lw |-> [i \in 1..Len(qsids) |-> LocalWindow(ep, qsids[i])],
    rw |-> [i \in 1..Len(qsids) |-> RemoteWindow(ep, qsids[i])],
    nx |-> NextStreamId(ep), mof |-> ep.mof, mif |-> ep.mif]
+
+\* ---------------------------------------------------------------- projection of the whole abstract state
+\* Compared after every step with the same projection read (read-only) from the real objects, so that a step that
+\* leaves the code in a different state than the model is noticed at that step, not only when a later step shows it.
+ZStream(sid, s) == [sid |-> sid, st |-> s.st, cl |-> s.cl, hs |-> s.hs, ts |-> s.ts, hr |-> s.hr, tr |-> s.tr, by |-> s.by,
+                    ow |-> s.ow, iw |-> <<s.iw.cur, s.iw.max, s.iw.bp>>,
+                    ecl |-> IF s.eclSet THEN <<s.ecl>> ELSE <<>>, acl |-> s.acl, meth |-> s.meth, auth |-> s.auth]
+ZSettings(S) == [i \in 1..Len(S.ord) |-> <<S.ord[i], IF S.ord[i] \in S.hn THEN Tail(S.q[S.ord[i]]) ELSE S.q[S.ord[i]], S.ord[i] \in S.hn>>]
+Z(ep) == [conn |-> ep.conn, hiIn |-> ep.hiIn, hiOut |-> ep.hiOut, ow |-> ep.ow, iw |-> <<ep.iw.cur, ep.iw.max, ep.iw.bp>>,
+          streams |-> [i \in 1..Len(ep.sord) |-> ZStream(ep.sord[i], ep.streams[ep.sord[i]])],
+          closed |-> [i \in 1..Len(ep.closed) |-> <<ep.closed[i].sid, ep.closed[i].by>>],
+          ls |-> ZSettings(ep.ls), rs |-> ZSettings(ep.rs), hdrCap |-> ep.hdrCap]
 =============================================================================
